@@ -548,6 +548,20 @@ def shape_tags(tree):
     """syntactic shapes that the listed source-level findings are keyed on"""
     tags = set()
     scopes = [tree] + [n for n in ast.walk(tree) if isinstance(n, ast.FunctionDef)]
+    fnames = {n.name for n in ast.walk(tree) if isinstance(n, ast.FunctionDef)}
+    for fn in [n for n in ast.walk(tree) if isinstance(n, ast.FunctionDef)]:
+        if not fn.body:
+            continue
+        last = fn.body[-1]
+        lastcall = last.value if isinstance(last, (ast.Expr, ast.Return)) and isinstance(getattr(last, "value", None), ast.Call) else None
+        if lastcall is not None and isinstance(lastcall.func, (ast.Name, ast.Attribute)):
+            name = lastcall.func.id if isinstance(lastcall.func, ast.Name) else lastcall.func.attr
+            if name in fnames:
+                others = [c for c in ast.walk(fn) if isinstance(c, ast.Call) and c is not lastcall
+                          and (c.func.id if isinstance(c.func, ast.Name) else getattr(c.func, "attr", "")) in fnames]
+                early = [r for r in ast.walk(fn) if isinstance(r, ast.Return) and r is not last]
+                if others or early:
+                    tags.add("tail_call_with_other_call_or_early_return")
     for sc in scopes:
         body = [n for n in ast.walk(sc) if not (isinstance(n, ast.FunctionDef) and n is not sc)]
         own = []
